@@ -44,6 +44,11 @@ CLAIMED["C14"] = dict(
    note="Trusted: Coq kernel; extraction + OCaml driver; fakeredis (INFO keyspace/SELECT/EXISTS/HGETALL/HDEL) and redigo. 'Pairwise distinct own offsets' is the visible hypothesis of the order-independence theorem (an invariant of the sender: offsets of successive groups strictly increase, C04). utils.ParseKeyspace is exercised by the run but not modelled beyond 'databases with keys are listed'.",
    technique="Coq proof (argmax scan, permutation invariance, assoc-list lemmas) + differential run over TCP against fakeredis",
    design="DESIGN.md section 5, C14")
+CLAIMED["C01"] = dict(
+   text="Theorem C01_parse_exact in coq/Props/C01.v (closed, no axioms): for every RDB file of version 1..9 produced by the Coq spec encoder from an abstract syntax (any sequence of select-db / expiry s,ms / idle / freq / aux / lua / resize-db / module-aux with every sub-opcode / key units; every value type the loader accepts incl. opaque zipmap/ziplist/intset blobs, quicklists, text- and binary-score sorted sets, streams with groups, PELs and consumers; every string encoding incl. int8/16/32 and LZF; every length form, canonical or wider, the 64-bit form at discard positions) the model of Header/NextBinEntry*/Footer returns exactly the records defined from the syntax tree alone - file order, db, logical key, type, expiry in ms, idle/freq bound to the right key, value = byte-exact serialized value wrapped by createValueDump - and the checksum verifies; payloads verify under both DUMP checkers (C11). Proved by induction over the unit list with one exactness lemma per syntactic form (parser-combinator discipline 'consumes exactly its encoding, whatever follows'). Hypothesis visible in the statement: hashes stay below the 16 MiB chunk limit (the split case is specified by records_of/chunks and modelled, but not proved; it is exercised only by the thorough tier). Differential run: 1200 generated files of all types/encodings read by the real Loader through readers of 1..4096-byte pieces, plus truncated/corrupted images, vs the extracted model and records_of.",
+   note="Trusted: Coq kernel; goextract (chunk limit, type/opcode constants, FromVersion); extraction + OCaml driver; io.TeeReader/bytes.Buffer/io.ReadFull. strconv.ParseFloat is modelled as a syntactic check of decimal floats (float_ok; hexadecimal floats and the range error are not modelled: Redis writes %.17g of finite doubles). Module value types 6/7 are rejected by the code and are outside the property. PARTIAL: split hashes (> 16 MiB) are not covered by the theorem.",
+   technique="Coq proof (exactness of parser combinators, induction over the file syntax) + regenerated constants + differential run on generated files",
+   design="DESIGN.md section 5, C01")
 NOT_YET = {}
 props = [json.loads(l) for l in open(os.path.join(V, "properties.jsonl"))]
 hooks = subprocess.run(["git", "-C", "/repo", "log", "--format=%H %s"], capture_output=True, text=True).stdout.strip().split("\n")
